@@ -625,7 +625,7 @@ def acl_kwargs(case) -> dict:
 @st.composite
 def acl_st(draw, platform=None, min_items=0, max_items=12, kmax=3, groups=False, members=True, seqs=True,
            headings=True, group_by=True, noise=False, native=True, neq_multi=True, multi=True, empty_sets=False,
-           dup_headings=False, established=True, opaque=False, indent=True, protos=None):
+           dup_headings=False, established=True, opaque=False, indent=True, protos=None, comma_headings=False):
     platform = platform or draw(st.sampled_from(["ios", "nxos"]))
     kw = dict(kmax=kmax, groups=groups, members=members, seq=False, noise=noise, empty_sets=empty_sets,
               neq_multi=neq_multi, multi=multi, established=established, opaque=opaque, protos=protos)
@@ -638,6 +638,9 @@ def acl_st(draw, platform=None, min_items=0, max_items=12, kmax=3, groups=False,
         if kind < 2 and headings:
             hcount += 1
             name = f"H{hcount}" if not (dup_headings and hcount > 1 and draw(st.integers(0, 3)) == 0) else "H1"
+            if comma_headings and name != "H1" and draw(st.booleans()):
+                # distinct headings that agree up to the first comma ("NAME, description" convention)
+                name = f"H{max(1, hcount - 1)}, part {hcount}"
             items.append({"t": "rem", "text": f"{prefix}{name}", "seq": 0})
         elif kind < 4:
             text = draw(remark_text_st())
